@@ -124,6 +124,10 @@ func sourceFn(fd *ast.FuncDecl) string {
 				gors = append(gors, gor{lit.Body})
 				continue
 			}
+			if b := resolveGoCall(currentFile, x.Call); b != nil {
+				gors = append(gors, gor{b})
+				continue
+			}
 		}
 		sfail(st, "unsupported statement %s", src(st))
 	}
@@ -209,7 +213,7 @@ func sourceFn(fd *ast.FuncDecl) string {
 					fn.stateVar, fn.stateTy, sigma = fn.nName, "α", "α"
 				}
 				kind, body = "state", x.Body.List
-			case x.Init != nil && x.Cond != nil && x.Post != nil && src(x.Cond) == "true":
+			case x.Init != nil && x.Post != nil && (x.Cond == nil || src(x.Cond) == "true"):
 				in, ok1 := x.Init.(*ast.AssignStmt)
 				po, ok2 := x.Post.(*ast.IncDecStmt)
 				if !ok1 || !ok2 || in.Tok != token.DEFINE || len(in.Lhs) != 1 || src(in.Rhs[0]) != "0" || po.Tok != token.INC || src(po.X) != src(in.Lhs[0]) {
@@ -283,6 +287,8 @@ func sourcesFamily(files []string) string {
 	sb.WriteString("namespace Golem.Gen.PipeSrc\nopen Golem.Go Golem.Model Golem.Model.DSLT\n\nvariable {σ α β ε : Type}\n\n")
 	sb.WriteString(catchFamily(parse(files[0])))
 	f := parse(files[1])
+	currentFile = files[1]
+	scanSelHelpers(f)
 	for _, d := range f.Decls {
 		fd, ok := d.(*ast.FuncDecl)
 		if !ok || fd.Recv != nil || !sourceFns[fd.Name.Name] || fd.Body == nil {
